@@ -37,6 +37,10 @@ CHECKS = {
          "(a)(b) every disjunction of 1-3 branches from finite goals, loop{} producers, loop{false} divergers, nested conde, producers behind closures, at top level / under fresh / after an always-like prefix / as binary Disj, through Query::run: take(n) delivers n answers within the step budget whenever n exist; finite programs end with exactly their answers and stay ended. (c) FD programs with >= 2 constraints, hidden-FD-variable programs and multi-binding disequality programs run twice unscheduled and under every schedule of all 8 hooked hash-iteration sites with <= d deviations plus all-reversed: identical canonical answer sequences.",
          "A second OS process is not steered; iteration orders are enumerated at the hooked sites instead (superset up to the deviation bound). d=1 quick / 2 thorough.",
          "4/C09"),
+ "C10": ("bounded-exhaustive metamorphic comparison of combined vs separate branch runs x schedules (E3 x E2)",
+         "For 7 prefixes and every ordered pair (plus a stride of flat/nested triples) of 24 branch goals (bindings, disequalities, domain narrowing, FD propagators incl. distinctfd's shared constraint object, CLP(Z), user-state updates, nested conde, project, fail) the multiset of final states of `prefix, conde{A,B}` — reified terms, reported disequalities, per-branch user trail and open-constraint counter of an instrumented User — equals the union of the branches run alone.",
+         "Differential oracle: judges isolation, not the correctness of each branch goal; d=0 quick / 1 thorough.",
+         "4/C10"),
  "C16": ("bounded-exhaustive FD programs x deviation-bounded hash-order schedules vs brute force (E3 x E2)",
          "Every program of three FD tiers (one constraint: all kinds x all operand patterns/aliasings/constants x all domain assignments x all statement orders; two-three constraints mixed with ==, pre-bound and fully ground operands; answers shaped as lists/compounds, hidden variables, conde) is run under every schedule of the hash-ordered iterations with <= d deviations plus all-reversed; every answer must be a brute-force solution.",
          "Domains inside [-2, 3]; d=1 quick (T1) / 2; well-formed programs only (every FD operand has a domain or is an integer).",
@@ -49,6 +53,10 @@ CHECKS = {
          "Every representation reachable from all intervals / From<Vec> inputs / sparse sets of a small window (and of windows at the isize extremes) under all operations and all window predicates is compared with a BTreeSet model on every transition and every observer; exhaustive within the window.",
          "Model is BTreeSet<i64>; window width 7 (quick) / 9 (thorough); full-width interval only through O(1) operations.",
          "4/C18"),
+ "C19": ("bounded-exhaustive CLP(Z) programs over all operand/groundness patterns and statement orders vs integer arithmetic (E3)",
+         "plusz/timesz x every operand pattern over three variables and {-2,0,1,3} (all aliasings) x every groundness pattern x every statement order, and chains of two constraints: answers equal the integer-arithmetic closure (ground equations hold; two ground operands determine the third, fail, or leave it constrained when every integer works); no panic.",
+         "Values in {-2,0,1,3}; aliased operands with fewer than two ground positions are judged for soundness only.",
+         "4/C19"),
  "C22": ("bounded-exhaustive statement sequences with an instrumented User type and per-statement probes x schedules (E3 x E2)",
          "All ordered sequences of 2-3 == / != statements (incl. subsuming and multi-binding disequalities), sequences with a two-arm conde, and FD programs run with a User type counting with_constraint/take_constraint and logging process_extension; probes before/after every statement and every answer state: with - take == stored constraints; each successful == triggers process_extension once with exactly unify_rec's new bindings; the statements seen by an answer's user state form one program path (per-branch cloning).",
          "Statement alphabet of 10 tree + 7 FD statements; d=1 quick / 2 thorough on the store iteration sites.",
